@@ -21,7 +21,7 @@ inductive Mode where
 def stepUnq (c : Char) : Option (Mode × List Out) :=
   if inSet c [0x20, 0x09] then some (.start, [.brk])
   else if inSet c [0x0A] then none
-  else if inSet c [0x5C] then some (.esc, [.mark])
+  else if inSet c [0x5C] then some (.esc, [])
   else if inSet c [0x27] then some (.sq, [.mark])
   else if inSet c [0x22] then some (.dq, [.mark])
   else if inSet c [0x24, 0x60] then none                                   -- $ `
@@ -102,7 +102,7 @@ def stepBare (strict : Bool) (atStart : Bool) (c : Char) : Option (Mode × List 
   else if inSet c [0x0A, 0x0D] then none
   else if inSet c [0x27] then (if atStart then some (.sq, [.mark]) else none)
   else if inSet c [0x22] then none
-  else if inSet c [0x60] then some (.esc, [.mark])
+  else if inSet c [0x60] then some (.esc, [])
   else if inSet c [0x24] then none
   else if inSet c [0x28, 0x29, 0x7B, 0x7D] then none
   else if inSet c [0x3B, 0x7C, 0x26, 0x3C, 0x3E] then none
